@@ -180,12 +180,20 @@ class Overlay:
         if crate == "tracing-subscriber":
             rel2 = "tracing-subscriber/src/filter/subscriber_filters/mod.rs"
             t2 = self.read(rel2)
-            m = re.search(r"use std::\{[^}]*?(\bthread_local\s*,\s*|,\s*thread_local\b)[^}]*\}", t2, re.S)
-            if m:
-                s, e = m.span(1)
-                self.log.append({"kind": "O1_removed_import_token", "file": rel2, "token": t2[s:e].strip(), "sha256": sha(t2[s:e])})
-                t2 = t2[:s] + t2[e:]
-                self.write(rel2, t2)
+            removed = False
+            for um in re.finditer(r"^use std::\{", t2, re.M):
+                close = find_matching_brace(t2, um.end() - 1)
+                blk = t2[um.end():close]
+                tm = re.search(r"(?<![A-Za-z0-9_:])thread_local\s*,\s*", blk)
+                if tm:
+                    s0, e0 = um.end() + tm.start(), um.end() + tm.end()
+                    self.log.append({"kind": "O1_removed_import_token", "file": rel2, "token": t2[s0:e0].strip(), "sha256": sha(t2[s0:e0])})
+                    t2 = t2[:s0] + t2[e0:]
+                    self.write(rel2, t2)
+                    removed = True
+                    break
+            if not removed and re.search(r"use std::[^;]*\bthread_local\b", t2):
+                raise AnchorLost("explicit thread_local import present but rule O1 could not remove it")
 
     def add_once_cell_stub(self):
         rel = "Cargo.toml"
